@@ -241,3 +241,24 @@ Proof.
     apply reopen_segs_nodup, Hnd.
   - intros id Hid. apply Hmax, Hid.
 Qed.
+
+(** loading a SAFE tuple of file states is all-or-nothing: a load that reports failure has not touched
+    the shared sub-index states *)
+Theorem safe_files_all_or_nothing t g :
+  safe_files (match t_vec t with Some _ => true | None => false end)
+             (match t_txt t with Some _ => true | None => false end)
+             (match t_meta t with Some _ => true | None => false end) (sg_files g) = true ->
+  snd (load_segment t g) = false -> fst (load_segment t g) = t.
+Proof.
+  destruct t as [p tv tt tm]. destruct g as [id info T [[[fh fv] ft] fm] c].
+  unfold safe_files, load_segment. cbn [sg_files t_vec t_txt t_meta sg_T t_p].
+  destruct tv, tt, tm, fh, fv, ft, fm; cbn; intros H1 H2; try reflexivity; try discriminate.
+Qed.
+
+(** finishing the hybrid_ file last is enough: every directory a crash of such a writer leaves behind
+    loads all-or-nothing *)
+Theorem hybrid_last_safe hv ht hm files : hybrid_last hv ht hm files = true -> safe_files hv ht hm files = true.
+Proof.
+  destruct files as [[[fh fv] ft] fm]. unfold hybrid_last, safe_files.
+  destruct hv, ht, hm, fh, fv, ft, fm; cbn; intros H; try reflexivity; try discriminate.
+Qed.
